@@ -1,3 +1,939 @@
-#![allow(unused)]
+// In-crate step harnesses for src/bytes_mut.rs (F-STEP).  Child module of `bytes::bytes_mut`.
+// States: I-bm-vec (inline-Vec form: allocation of V bytes, symbolic front offset, capacity reaching the end of the
+// allocation, symbolic len) and I-bm-arc (shared form: bytes_mut::Shared{vec(base, V), repr, ref_count = r}, handle
+// region [off, off+cap) anywhere inside, symbolic len <= cap, ghost neighbours on both sides when r > 1), and the
+// frozen form (Bytes with the bytes_mut SHARED_VTABLE).  One operation per harness, arguments symbolic over all of
+// usize where the argument is a request size.
+#![allow(unused, static_mut_refs)]
 #![cfg(kani)]
 use super::*;
+use alloc::boxed::Box;
+use alloc::vec::Vec;
+use core::alloc::Layout;
+
+include!("/verif/kani/common/odd_alloc.rs");
+
+pub const V: usize = 8;
+
+macro_rules! end_reached {
+    () => {
+        kani::cover!(true, "END_REACHED");
+    };
+}
+macro_rules! counting {
+    ($(#[$m:meta])* pub fn $name:ident() $body:block) => {
+        $(#[$m])*
+        #[kani::proof]
+        #[kani::unwind(10)]
+        #[kani::stub(std::alloc::alloc, cnt_alloc)]
+        #[kani::stub(std::alloc::dealloc, cnt_dealloc)]
+        #[kani::stub(std::alloc::realloc, cnt_realloc)]
+        #[kani::stub(alloc::alloc::dealloc_nonnull, cnt_dealloc_nonnull)]
+        #[kani::stub(alloc::alloc::realloc_nonnull, cnt_realloc_nonnull)]
+        pub fn $name() $body
+    };
+}
+
+fn any_below(n: usize) -> usize {
+    let i: usize = kani::any();
+    kani::assume(i < n);
+    i
+}
+fn any_upto(n: usize) -> usize {
+    let i: usize = kani::any();
+    kani::assume(i <= n);
+    i
+}
+
+unsafe fn new_buf(data: &[u8; V]) -> *mut u8 {
+    let buf = alloc::alloc::alloc(Layout::from_size_align(V, 1).unwrap());
+    let mut i = 0;
+    while i < V {
+        *buf.add(i) = data[i];
+        i += 1;
+    }
+    buf
+}
+
+pub struct G {
+    pub data: [u8; V],
+    pub base: *mut u8,
+    pub off: usize,
+    pub len: usize,
+    pub cap: usize,
+    pub r: usize,
+    pub sh: *mut Shared,
+}
+
+/// I-bm-vec: sole handle, inline-Vec form
+unsafe fn st_vec() -> (BytesMut, G) {
+    let data: [u8; V] = kani::any();
+    let base = new_buf(&data);
+    let off = any_upto(V);
+    let cap = V - off;
+    let len = any_upto(cap);
+    let repr = original_capacity_to_repr(V);
+    let d = (off << VEC_POS_OFFSET) | (repr << ORIGINAL_CAPACITY_OFFSET) | KIND_VEC;
+    let m = BytesMut { ptr: vptr(base.add(off)), len, cap, data: invalid_ptr(d) };
+    (m, G { data, base, off, len, cap, r: 1, sh: core::ptr::null_mut() })
+}
+
+/// I-bm-arc: shared form with reference count r; when `unique` the count is 1
+unsafe fn st_arc(unique: bool) -> (BytesMut, G) {
+    let data: [u8; V] = kani::any();
+    let base = new_buf(&data);
+    let r: usize = kani::any();
+    kani::assume(r >= 1 && r <= (usize::MAX >> 1));
+    if unique {
+        kani::assume(r == 1);
+    }
+    let vlen = any_upto(V);
+    let repr: usize = kani::any();
+    kani::assume(repr <= 7);
+    let sh = Box::into_raw(Box::new(Shared {
+        vec: Vec::from_raw_parts(base, vlen, V),
+        original_capacity_repr: repr,
+        ref_count: AtomicUsize::new(r),
+    }));
+    let off = any_upto(V);
+    let cap = any_upto(V - off);
+    let len = any_upto(cap);
+    let m = BytesMut { ptr: vptr(base.add(off)), len, cap, data: sh };
+    (m, G { data, base, off, len, cap, r, sh })
+}
+
+unsafe fn cnt(g: &G) -> usize {
+    (*g.sh).ref_count.load(Ordering::Relaxed)
+}
+unsafe fn set_cnt(g: &G, n: usize) {
+    (*g.sh).ref_count.store(n, Ordering::Relaxed)
+}
+/// bytes of the ORIGINAL allocation outside [lo, hi) are unchanged (ghost neighbours never see a write)
+unsafe fn outside_unchanged(g: &G, lo: usize, hi: usize) {
+    let i = any_below(V);
+    if i < lo || i >= hi {
+        assert!(*g.base.add(i) == g.data[i]);
+    }
+}
+fn content_is(m: &BytesMut, g: &G) {
+    assert!(m.len() == g.len);
+    if g.len > 0 {
+        let i = any_below(g.len);
+        assert!(m[i] == g.data[g.off + i]);
+    }
+}
+/// [ptr, ptr+cap) lies inside one live allocation
+unsafe fn region_ok(m: &BytesMut) {
+    assert!(m.len <= m.cap);
+    if m.cap > 0 {
+        assert!(kani::mem::can_write_unaligned(core::ptr::slice_from_raw_parts_mut(m.ptr.as_ptr(), m.cap)));
+    }
+}
+unsafe fn finish_arc(g: &G, live: usize) {
+    // release ghost references: the count becomes the number of real handles the harness still holds
+    set_cnt(g, live);
+}
+
+// ================================================================================== pure capacity-class functions (all usize)
+// @h props=C04,C18 tier=quick group=step note=original_capacity_to_repr/from_repr_for_all_usize
+#[kani::proof]
+pub fn original_capacity_fns() {
+    let c: usize = kani::any();
+    let r = original_capacity_to_repr(c);
+    assert!(r <= MAX_ORIGINAL_CAPACITY_WIDTH - MIN_ORIGINAL_CAPACITY_WIDTH);
+    let back = original_capacity_from_repr(r);
+    assert!(back <= c || c == 0 || back == 0);
+    assert!(back <= c);
+    if c < (1 << MIN_ORIGINAL_CAPACITY_WIDTH) {
+        assert!(r == 0 && back == 0);
+    } else {
+        assert!(r >= 1 && back >= (1 << MIN_ORIGINAL_CAPACITY_WIDTH));
+    }
+    let c2: usize = kani::any();
+    if c2 >= c {
+        assert!(original_capacity_to_repr(c2) >= r);
+    }
+    assert!(back <= (1 << (MAX_ORIGINAL_CAPACITY_WIDTH - 1)));
+    end_reached!();
+}
+
+// ================================================================================== try_reclaim / reserve: inline-Vec form
+counting! {
+    // @h props=C04,C02,C08,C13,C16,C18 tier=quick flags=leak group=step note=try_reclaim(additional_over_all_usize)_inline_vec_form
+    pub fn vec_try_reclaim() {
+        unsafe {
+            let (mut m, g) = st_vec();
+            let add: usize = kani::any();
+            let (p0, l0, c0, d0) = (m.ptr, m.len, m.cap, m.data);
+            let ev0 = alloc_events();
+            let ok = m.try_reclaim(add);
+            assert!(alloc_events() == ev0); // never allocates, frees or reallocates
+            if ok {
+                assert!(m.capacity() - m.len() >= add);
+                content_is(&m, &g);
+                region_ok(&m);
+                assert!(m.ptr.as_ptr() == p0.as_ptr() || m.ptr.as_ptr() == g.base);
+            } else {
+                assert!(m.ptr == p0 && m.len == l0 && m.cap == c0 && m.data == d0);
+            }
+            // C08: an empty sole owner can always take the whole allocation back
+            if g.len == 0 && add <= V {
+                assert!(ok);
+            }
+            kani::cover!(ok && m.ptr.as_ptr() != p0.as_ptr(), "shifted to the front");
+            kani::cover!(!ok, "refused");
+            kani::cover!(add == usize::MAX, "additional == usize::MAX");
+            end_reached!();
+        }
+    }
+}
+
+counting! {
+    // @h props=C04,C02,C18 tier=quick flags=leak group=step note=reserve_that_can_be_satisfied_in_place_inline_vec_form
+    pub fn vec_reserve_in_place() {
+        unsafe {
+            let (mut m, g) = st_vec();
+            let add: usize = kani::any();
+            // requests that the reclaim rule (off >= len and enough room incl. the front gap) can satisfy
+            kani::assume(add <= g.cap - g.len || (g.off >= g.len && g.cap - g.len + g.off >= add));
+            let ev0 = alloc_events();
+            m.reserve(add);
+            assert!(alloc_events() == ev0);
+            assert!(m.capacity() - m.len() >= add);
+            content_is(&m, &g);
+            region_ok(&m);
+            end_reached!();
+        }
+    }
+}
+
+macro_rules! vec_reserve_grow {
+    ($name:ident, $add:expr) => {
+        counting! {
+            pub fn $name() {
+                unsafe {
+                    // growth: the request becomes an allocation size, so it is concrete; state stays symbolic
+                    let (mut m, g) = st_vec();
+                    let add: usize = $add;
+                    kani::assume(!(add <= g.cap - g.len || (g.off >= g.len && g.cap - g.len + g.off >= add)));
+                    let b0 = N_ALLOC_BYTEBUF;
+                    m.reserve(add);
+                    assert!(m.capacity() - m.len() >= add);
+                    content_is(&m, &g);
+                    region_ok(&m);
+                    assert!(N_ALLOC_BYTEBUF - b0 <= 1);
+                    end_reached!();
+                }
+            }
+        }
+    };
+}
+// @h props=C04,C02,C18 tier=quick flags=leak group=step note=reserve(9)_forces_growth_inline_vec_form
+vec_reserve_grow!(vec_reserve_grow_9, 9);
+// @h props=C04,C02,C18 tier=thorough flags=leak group=step note=reserve(3)_growth_when_front_gap_too_small
+vec_reserve_grow!(vec_reserve_grow_3, 3);
+
+counting! {
+    // @h props=C04,C13,C16 tier=quick group=step allow=capacity_overflow|raw_vec|handle_error|overflow must_fail=. note=reserve_with_unrepresentable_total_must_not_return(inline_vec)
+    pub fn vec_reserve_overflow() {
+        unsafe {
+            let (mut m, g) = st_vec();
+            kani::assume(g.len > 0);
+            let add: usize = kani::any();
+            kani::assume(add > isize::MAX as usize);
+            end_reached!();
+            m.reserve(add);
+            assert!(false, "RETURNED: reserve of an unrepresentable size must panic");
+        }
+    }
+}
+
+// ================================================================================== try_reclaim / reserve: shared form
+counting! {
+    // @h props=C04,C02,C08,C13,C16,C18 tier=quick flags=leak group=step note=try_reclaim(additional_over_all_usize)_shared_form_any_refcount
+    pub fn arc_try_reclaim() {
+        unsafe {
+            let (mut m, g) = st_arc(false);
+            let add: usize = kani::any();
+            let (p0, l0, c0, d0) = (m.ptr, m.len, m.cap, m.data);
+            let ev0 = alloc_events();
+            let ok = m.try_reclaim(add);
+            assert!(alloc_events() == ev0);
+            assert!(cnt(&g) == g.r);
+            if ok {
+                assert!(m.capacity() - m.len() >= add);
+                content_is(&m, &g);
+                region_ok(&m);
+                // the handle may only have grown over memory nobody else can hold: either it did not change, or it
+                // was the only handle
+                assert!((m.ptr == p0 && m.cap == c0) || g.r == 1);
+                if g.r != 1 {
+                    outside_unchanged(&g, g.off, g.off + g.cap);
+                }
+            } else {
+                assert!(m.ptr == p0 && m.len == l0 && m.cap == c0 && m.data == d0);
+                outside_unchanged(&g, V, V);
+            }
+            if g.len == 0 && g.r == 1 && add <= V {
+                assert!(ok); // C08
+            }
+            kani::cover!(ok && g.r == 1 && m.ptr.as_ptr() == g.base && g.off > 0, "copied to the front of the allocation");
+            kani::cover!(ok && g.r == 1 && m.cap > c0 && m.ptr == p0, "extended in place");
+            kani::cover!(!ok && g.r == 1, "unique but refused");
+            kani::cover!(!ok && g.r > 1, "not unique: refused");
+            finish_arc(&g, 1);
+            end_reached!();
+        }
+    }
+}
+
+counting! {
+    // @h props=C04,C02,C18 tier=quick flags=leak group=step note=reserve_on_unique_shared_form_that_reclaim_rules_can_satisfy
+    pub fn arc_reserve_in_place() {
+        unsafe {
+            let (mut m, g) = st_arc(true);
+            let add: usize = kani::any();
+            kani::assume(add <= V); // representable; the near-usize::MAX region is vec/arc_try_reclaim's and arc_reserve_overflow's
+            let need = g.len + add;
+            kani::assume(add <= g.cap - g.len || V >= need + g.off || (V >= need && g.off >= g.len));
+            let ev0 = alloc_events();
+            m.reserve(add);
+            assert!(alloc_events() == ev0);
+            assert!(m.capacity() - m.len() >= add);
+            content_is(&m, &g);
+            region_ok(&m);
+            finish_arc(&g, 1);
+            end_reached!();
+        }
+    }
+}
+
+macro_rules! arc_reserve_new {
+    ($name:ident, $add:expr, $unique:expr) => {
+        counting! {
+            pub fn $name() {
+                unsafe {
+                    let (mut m, g) = st_arc($unique);
+                    let add: usize = $add;
+                    if $unique {
+                        let need = g.len + add;
+                        kani::assume(!(add <= g.cap - g.len || V >= need + g.off || (V >= need && g.off >= g.len)));
+                    } else {
+                        kani::assume(g.r > 1 && add > g.cap - g.len);
+                        // keep the new buffer small: capacity classes >= 1 KiB are covered by arc_reserve_new_repr
+                        kani::assume((*g.sh).original_capacity_repr == 0);
+                    }
+                    m.reserve(add);
+                    assert!(m.capacity() - m.len() >= add);
+                    content_is(&m, &g);
+                    region_ok(&m);
+                    if !$unique {
+                        // moved to a fresh buffer; the old one lost exactly this handle and is untouched
+                        assert!(cnt(&g) == g.r - 1);
+                        outside_unchanged(&g, V, V);
+                        assert!(m.kind() == KIND_VEC);
+                        finish_arc(&g, 1);
+                        release_shared(g.sh);
+                    } else {
+                        finish_arc(&g, 1);
+                    }
+                    end_reached!();
+                }
+            }
+        }
+    };
+}
+// @h props=C04,C02,C01,C03,C18 tier=quick flags=leak group=step note=reserve(3)_on_shared_buffer_with_other_handles_moves_to_a_new_buffer
+arc_reserve_new!(arc_reserve_new_shared_3, 3, false);
+// @h props=C04,C02,C18 tier=quick flags=leak group=step note=reserve(9)_on_unique_shared_form_grows_the_vector
+arc_reserve_new!(arc_reserve_grow_unique_9, 9, true);
+
+counting! {
+    // @h props=C04,C18 tier=quick flags=leak group=step note=new_buffer_size_uses_the_original_capacity_class(symbolic_repr_1..=7)
+    pub fn arc_reserve_new_repr() {
+        unsafe {
+            let (mut m, g) = st_arc(false);
+            kani::assume(g.r > 1 && g.len <= 2);
+            let repr = (*g.sh).original_capacity_repr;
+            kani::assume(repr >= 1);
+            let add: usize = 3;
+            kani::assume(add > g.cap - g.len);
+            m.reserve(add);
+            assert!(m.capacity() >= original_capacity_from_repr(repr));
+            assert!(m.capacity() - m.len() >= add);
+            assert!(LAST_ALLOC_SIZE == original_capacity_from_repr(repr));
+            content_is(&m, &g);
+            assert!(cnt(&g) == g.r - 1);
+            kani::cover!(repr == 7, "largest capacity class (64 KiB)");
+            finish_arc(&g, 1);
+            release_shared(g.sh);
+            end_reached!();
+        }
+    }
+}
+
+counting! {
+    // @h props=C04,C13,C16 tier=quick group=step allow=overflow|capacity_overflow|raw_vec|handle_error must_fail=. note=reserve_with_unrepresentable_total_must_not_return(shared_form)
+    pub fn arc_reserve_overflow() {
+        unsafe {
+            let (mut m, g) = st_arc(false);
+            kani::assume(g.len > 0);
+            let add: usize = kani::any();
+            kani::assume(add > isize::MAX as usize);
+            end_reached!();
+            m.reserve(add);
+            assert!(false, "RETURNED: reserve of an unrepresentable size must panic");
+        }
+    }
+}
+
+// ================================================================================== splits
+unsafe fn split_post(a: &BytesMut, b: &BytesMut) {
+    // disjoint, both inside the allocation
+    let (pa, pb) = (a.ptr.as_ptr() as usize, b.ptr.as_ptr() as usize);
+    assert!(pa + a.cap <= pb || pb + b.cap <= pa);
+    region_ok(a);
+    region_ok(b);
+}
+
+macro_rules! split_family {
+    ($name:ident, $st:expr, $counted:expr) => {
+        #[kani::proof]
+        #[kani::unwind(10)]
+        pub fn $name() {
+            unsafe {
+                let (mut m, g) = $st;
+                let op: u8 = kani::any();
+                kani::assume(op < 3);
+                let p0 = m.ptr.as_ptr();
+                let other;
+                let (self_lo, self_hi, oth_lo, oth_hi); // model views relative to the old view start
+                match op {
+                    0 => {
+                        let at = any_upto(g.cap);
+                        other = m.split_off(at);
+                        assert!(m.ptr.as_ptr() == p0 && m.cap == at);
+                        assert!(other.ptr.as_ptr() == p0.add(at) && other.cap == g.cap - at);
+                        self_lo = 0;
+                        self_hi = if g.len < at { g.len } else { at };
+                        oth_lo = at;
+                        oth_hi = if g.len > at { g.len } else { at };
+                        kani::cover!(at > g.len, "split_off inside the spare capacity");
+                    }
+                    1 => {
+                        let at = any_upto(g.len);
+                        other = m.split_to(at);
+                        assert!(other.ptr.as_ptr() == p0 && other.cap == at && other.len == at);
+                        assert!(m.ptr.as_ptr() == p0.add(at) && m.cap == g.cap - at);
+                        self_lo = at;
+                        self_hi = g.len;
+                        oth_lo = 0;
+                        oth_hi = at;
+                    }
+                    _ => {
+                        other = m.split();
+                        assert!(other.ptr.as_ptr() == p0 && other.len == g.len && other.cap == g.len);
+                        assert!(m.ptr.as_ptr() == p0.add(g.len) && m.len == 0 && m.cap == g.cap - g.len);
+                        self_lo = g.len;
+                        self_hi = g.len;
+                        oth_lo = 0;
+                        oth_hi = g.len;
+                    }
+                }
+                assert!(m.len == self_hi - self_lo && other.len == oth_hi - oth_lo);
+                if m.len > 0 {
+                    let i = any_below(m.len);
+                    assert!(m[i] == g.data[g.off + self_lo + i]);
+                }
+                if other.len > 0 {
+                    let i = any_below(other.len);
+                    assert!(other[i] == g.data[g.off + oth_lo + i]);
+                }
+                split_post(&m, &other);
+                assert!(m.kind() == KIND_ARC && other.kind() == KIND_ARC && m.data == other.data);
+                let sh = m.data;
+                let now = (*sh).ref_count.load(Ordering::Relaxed);
+                if $counted {
+                    assert!(now == g.r + 1);
+                } else {
+                    assert!(now == 2);
+                    assert!((*sh).vec.as_ptr() == g.base as *const u8 && (*sh).vec.capacity() == V);
+                }
+                outside_unchanged(&g, V, V);
+                // write probe: filling one half's spare capacity is invisible through the other
+                let fill: u8 = kani::any();
+                let w: bool = kani::any();
+                if w {
+                    let before = if other.len > 0 { Some((any_below(other.len))) } else { None };
+                    let old = before.map(|i| other[i]);
+                    let n = m.cap - m.len;
+                    m.put_bytes(fill, n);
+                    if let (Some(i), Some(o)) = (before, old) {
+                        assert!(other[i] == o);
+                    }
+                } else {
+                    let before = if m.len > 0 { Some((any_below(m.len))) } else { None };
+                    let old = before.map(|i| m[i]);
+                    let mut other = other;
+                    let n = other.cap - other.len;
+                    other.put_bytes(fill, n);
+                    if let (Some(i), Some(o)) = (before, old) {
+                        assert!(m[i] == o);
+                    }
+                    (*sh).ref_count.store(2, Ordering::Relaxed);
+                    drop(other);
+                    drop(m);
+                    end_reached!();
+                    return;
+                }
+                (*sh).ref_count.store(2, Ordering::Relaxed);
+                let first: bool = kani::any();
+                if first {
+                    drop(m);
+                    drop(other);
+                } else {
+                    drop(other);
+                    drop(m);
+                }
+                end_reached!();
+            }
+        }
+    };
+}
+// @h props=C01,C02,C03,C04,C07,C16 tier=quick flags=leak group=step note=split_off/split_to/split_from_inline_vec_form(promotion_to_shared)
+split_family!(vec_split, st_vec(), false);
+// @h props=C01,C02,C03,C04,C07,C16 tier=quick flags=leak group=step note=split_off/split_to/split_from_shared_form_any_refcount
+split_family!(arc_split, st_arc(false), true);
+
+// ================================================================================== in-place view / length operations
+macro_rules! inplace_family {
+    ($name:ident, $st:expr, $counted:expr) => {
+        #[kani::proof]
+        #[kani::unwind(10)]
+        pub fn $name() {
+            unsafe {
+                let (mut m, g) = $st;
+                let op: u8 = kani::any();
+                kani::assume(op < 6);
+                let p0 = m.ptr.as_ptr();
+                let (mut lo, mut hi) = (0usize, g.len);
+                let mut appended: Option<(usize, u8)> = None;
+                match op {
+                    0 => {
+                        let n = any_upto(g.len);
+                        m.advance(n);
+                        assert!(m.ptr.as_ptr() == p0.add(n) && m.cap == g.cap - n);
+                        lo = n;
+                    }
+                    1 => {
+                        let n: usize = kani::any();
+                        m.truncate(n);
+                        assert!(m.ptr.as_ptr() == p0 && m.cap == g.cap);
+                        hi = if n < g.len { n } else { g.len };
+                    }
+                    2 => {
+                        m.clear();
+                        assert!(m.ptr.as_ptr() == p0 && m.cap == g.cap);
+                        hi = 0;
+                    }
+                    3 => {
+                        // resize within capacity (growth is reserve's business)
+                        let n = any_upto(g.cap);
+                        let v: u8 = kani::any();
+                        m.resize(n, v);
+                        assert!(m.ptr.as_ptr() == p0 && m.cap == g.cap && m.len == n);
+                        if n > g.len {
+                            let i = any_below(n - g.len);
+                            assert!(m[g.len + i] == v);
+                        }
+                        hi = if n < g.len { n } else { g.len };
+                        m.truncate(hi);
+                    }
+                    4 => {
+                        // append within capacity
+                        kani::assume(g.cap - g.len >= 1);
+                        let v: u8 = kani::any();
+                        m.extend_from_slice(&[v]);
+                        assert!(m.ptr.as_ptr() == p0 && m.cap == g.cap && m.len == g.len + 1);
+                        assert!(m[g.len] == v);
+                        m.truncate(g.len);
+                    }
+                    _ => {
+                        let n = any_upto(g.cap);
+                        m.set_len(n);
+                        assert!(m.len == n && m.cap == g.cap && m.ptr.as_ptr() == p0);
+                        hi = if n < g.len { n } else { g.len };
+                        m.set_len(hi);
+                    }
+                }
+                assert!(m.len == hi - lo);
+                if hi > lo {
+                    let i = any_below(hi - lo);
+                    assert!(m[i] == g.data[g.off + lo + i]);
+                }
+                region_ok(&m);
+                // nothing outside the handle's own region was written
+                outside_unchanged(&g, g.off, g.off + g.cap);
+                if $counted {
+                    assert!(cnt(&g) == g.r);
+                    finish_arc(&g, 1);
+                }
+                end_reached!();
+            }
+        }
+    };
+}
+// @h props=C01,C02,C04,C07 tier=quick flags=leak group=step note=advance/truncate/clear/resize/extend/set_len_inline_vec_form
+inplace_family!(vec_inplace, st_vec(), false);
+// @h props=C01,C02,C04,C07 tier=quick flags=leak group=step note=advance/truncate/clear/resize/extend/set_len_shared_form
+inplace_family!(arc_inplace, st_arc(false), true);
+
+// ================================================================================== unsplit of two real neighbours
+// @h props=C01,C02,C03,C04,C07 tier=quick flags=leak group=step note=unsplit_of_adjacent_and_non-adjacent_halves_of_one_shared_buffer
+#[kani::proof]
+#[kani::unwind(10)]
+pub fn arc_unsplit() {
+    unsafe {
+        // two real handles on one shared buffer: A = [off, off+cap_a) and B starting right at A's capacity end or
+        // elsewhere; lengths symbolic
+        let (mut a, g) = st_arc(false);
+        kani::assume(g.r >= 2);
+        let b_off = any_upto(V);
+        kani::assume(b_off >= g.off + g.cap);
+        let b_cap = any_upto(V - b_off);
+        let b_len = any_upto(b_cap);
+        let b = BytesMut { ptr: vptr(g.base.add(b_off)), len: b_len, cap: b_cap, data: g.sh };
+        let p0 = a.ptr.as_ptr();
+        a.unsplit(b);
+        // model: a ++ b, always (zero-copy when b really follows a's LAST BYTE, copy otherwise)
+        assert!(a.len == g.len + b_len);
+        if g.len > 0 {
+            let i = any_below(g.len);
+            assert!(a[i] == g.data[g.off + i]);
+        }
+        if b_len > 0 {
+            let i = any_below(b_len);
+            assert!(a[g.len + i] == g.data[b_off + i]);
+        }
+        region_ok(&a);
+        let zero_copy = g.len > 0 && b_cap > 0 && b_off == g.off + g.len;
+        if zero_copy {
+            assert!(a.ptr.as_ptr() == p0 && a.cap == g.cap + b_cap);
+        }
+        kani::cover!(zero_copy, "adjacent halves merged without copying");
+        kani::cover!(g.len > 0 && g.len < g.cap && b_off == g.off + g.cap && b_len > 0, "b follows a's capacity but not a's last byte");
+        if a.data == g.sh {
+            // a is still on the shared buffer; b's reference was given back
+            assert!(cnt(&g) == g.r - 1);
+            finish_arc(&g, 1);
+        } else {
+            // a had to move to its own buffer (copy path with growth): both references were given back
+            if g.r > 2 {
+                assert!(cnt(&g) == g.r - 2);
+                finish_arc(&g, 1);
+                release_shared(g.sh);
+            }
+            // g.r == 2: the shared buffer is gone (freed exactly once; CBMC's double-free / leak checks)
+        }
+        end_reached!();
+    }
+}
+
+// ================================================================================== freeze and the frozen vtable
+/// I-bm-vec with a concrete shape (freeze hands (off+len, capacity) to Vec/Box code whose cost explodes on symbolic
+/// sizes); contents stay symbolic
+unsafe fn st_vec_at(off: usize, len: usize) -> (BytesMut, G) {
+    let data: [u8; V] = kani::any();
+    let base = new_buf(&data);
+    let cap = V - off;
+    let repr = original_capacity_to_repr(V);
+    let d = (off << VEC_POS_OFFSET) | (repr << ORIGINAL_CAPACITY_OFFSET) | KIND_VEC;
+    let m = BytesMut { ptr: vptr(base.add(off)), len, cap, data: invalid_ptr(d) };
+    (m, G { data, base, off, len, cap, r: 1, sh: core::ptr::null_mut() })
+}
+
+macro_rules! vec_freeze_case {
+    ($name:ident, $off:expr, $len:expr) => {
+        #[kani::proof]
+        #[kani::unwind(10)]
+        pub fn $name() {
+            unsafe {
+                let (m, g) = st_vec_at($off, $len);
+                let p0 = m.ptr.as_ptr() as *const u8;
+                let b = m.freeze();
+                assert!(b.len() == g.len);
+                if g.len > 0 {
+                    assert!(b.as_ptr() == p0);
+                    let i = any_below(g.len);
+                    assert!(b[i] == g.data[g.off + i]);
+                }
+                // the frozen handle is a fully working Bytes: clone, drop in either order
+                let c = b.clone();
+                let first: bool = kani::any();
+                if first {
+                    drop(b);
+                    if g.len > 0 {
+                        let i = any_below(g.len);
+                        assert!(c[i] == g.data[g.off + i]);
+                    }
+                    drop(c);
+                } else {
+                    drop(c);
+                    drop(b);
+                }
+                end_reached!();
+            }
+        }
+    };
+}
+// @h props=C01,C02,C03,C07 tier=quick flags=leak group=step note=freeze_full_vec(len==cap,off=0)_becomes_promotable
+vec_freeze_case!(vec_freeze_full, 0, V);
+// @h props=C01,C02,C03,C07 tier=quick flags=leak group=step note=freeze_vec_with_spare_capacity_and_offset_becomes_shared+advance
+vec_freeze_case!(vec_freeze_spare_off, 2, 3);
+// @h props=C01,C02,C03,C07 tier=quick flags=leak group=step note=freeze_full_vec_with_offset(promotable+advance)
+vec_freeze_case!(vec_freeze_full_off, 3, V - 3);
+// @h props=C01,C02,C03,C07 tier=thorough flags=leak group=step note=freeze_empty_vec
+vec_freeze_case!(vec_freeze_empty, 0, 0);
+
+/// I-frozen-arc: Bytes with the bytes_mut SHARED_VTABLE on an arbitrary shared state
+unsafe fn st_frozen() -> (Bytes, G) {
+    let (m, mut g) = st_arc(false);
+    let ptr = m.ptr.as_ptr();
+    let len = m.len;
+    core::mem::forget(m);
+    g.cap = len;
+    let b = Bytes::with_vtable(ptr, len, AtomicPtr::new(g.sh.cast()), &SHARED_VTABLE);
+    (b, g)
+}
+
+// @h props=C01,C02,C03,C07 tier=quick flags=leak group=step note=freeze_shared_form_is_a_relabel
+#[kani::proof]
+#[kani::unwind(10)]
+pub fn arc_freeze() {
+    unsafe {
+        let (m, g) = st_arc(false);
+        let p0 = m.ptr.as_ptr() as *const u8;
+        let b = m.freeze();
+        assert!(b.len() == g.len && cnt(&g) == g.r);
+        if g.len > 0 {
+            assert!(b.as_ptr() == p0);
+            let i = any_below(g.len);
+            assert!(b[i] == g.data[g.off + i]);
+        }
+        core::mem::forget(b);
+        // the frozen handle still owns one reference: release it and the ghosts
+        finish_arc(&g, 1);
+        release_shared(g.sh);
+        end_reached!();
+    }
+}
+
+// @h props=C01,C02,C03,C04,C07,C08 tier=quick flags=leak group=step note=frozen_vtable:clone/into_vec/into_mut/is_unique/drop_from_arbitrary_state
+#[kani::proof]
+#[kani::unwind(10)]
+pub fn frozen_ops() {
+    unsafe {
+        let (b, g) = st_frozen();
+        let op: u8 = kani::any();
+        kani::assume(op < 5);
+        let p0 = b.as_ptr();
+        match op {
+            0 => {
+                let c = (SHARED_VTABLE.clone)(&AtomicPtr::new(g.sh.cast()), p0, g.len);
+                assert!(c.as_ptr() == p0 && c.len() == g.len && cnt(&g) == g.r + 1);
+                core::mem::forget(c);
+                core::mem::forget(b);
+                finish_arc(&g, 1);
+                release_shared(g.sh);
+            }
+            1 => {
+                let v = (SHARED_VTABLE.into_vec)(&AtomicPtr::new(g.sh.cast()), p0, g.len);
+                core::mem::forget(b);
+                assert!(v.len() == g.len);
+                if g.len > 0 {
+                    let i = any_below(g.len);
+                    assert!(v[i] == g.data[g.off + i]);
+                }
+                if g.r == 1 {
+                    assert!(v.as_ptr() == g.base as *const u8 && v.capacity() == V);
+                } else {
+                    assert!(cnt(&g) == g.r - 1);
+                    outside_unchanged(&g, V, V);
+                    finish_arc(&g, 1);
+                    release_shared(g.sh);
+                }
+            }
+            2 => {
+                let m = (SHARED_VTABLE.into_mut)(&AtomicPtr::new(g.sh.cast()), p0, g.len);
+                core::mem::forget(b);
+                assert!(m.len() == g.len);
+                if g.len > 0 {
+                    let i = any_below(g.len);
+                    assert!(m[i] == g.data[g.off + i]);
+                }
+                if g.r == 1 {
+                    // zero-copy: same address and the capacity ends exactly at the end of the allocation
+                    assert!(m.as_ptr() == p0);
+                    assert!(m.capacity() == V - g.off);
+                    region_ok(&m);
+                    finish_arc(&g, 1);
+                } else {
+                    assert!(cnt(&g) == g.r - 1);
+                    outside_unchanged(&g, V, V);
+                    region_ok(&m);
+                    finish_arc(&g, 1);
+                    release_shared(g.sh);
+                }
+                kani::cover!(g.r == 1 && g.off > 0, "unique frozen view with a front offset");
+            }
+            3 => {
+                assert!((SHARED_VTABLE.is_unique)(&AtomicPtr::new(g.sh.cast())) == (g.r == 1));
+                core::mem::forget(b);
+                finish_arc(&g, 1);
+                release_shared(g.sh);
+            }
+            _ => {
+                let mut d = AtomicPtr::new(g.sh.cast());
+                (SHARED_VTABLE.drop)(&mut d, p0, g.len);
+                core::mem::forget(b);
+                if g.r != 1 {
+                    assert!(cnt(&g) == g.r - 1);
+                    outside_unchanged(&g, V, V);
+                    finish_arc(&g, 1);
+                    release_shared(g.sh);
+                }
+            }
+        }
+        end_reached!();
+    }
+}
+
+// ================================================================================== conversions to Vec and drop
+// @h props=C01,C02,C03 tier=quick flags=leak group=step note=From<BytesMut>_for_Vec_inline_vec_form
+#[kani::proof]
+#[kani::unwind(10)]
+pub fn vec_into_vec() {
+    unsafe {
+        let (m, g) = st_vec();
+        let v: Vec<u8> = m.into();
+        assert!(v.len() == g.len && v.as_ptr() == g.base as *const u8 && v.capacity() == V);
+        if g.len > 0 {
+            let i = any_below(g.len);
+            assert!(v[i] == g.data[g.off + i]);
+        }
+        kani::cover!(g.off > 0 && g.off < g.len, "overlapping copy to the front");
+        end_reached!();
+    }
+}
+
+// @h props=C01,C02,C03,C08 tier=quick flags=leak group=step note=From<BytesMut>_for_Vec_shared_form_any_refcount
+#[kani::proof]
+#[kani::unwind(10)]
+pub fn arc_into_vec() {
+    unsafe {
+        let (m, g) = st_arc(false);
+        let v: Vec<u8> = m.into();
+        assert!(v.len() == g.len);
+        if g.len > 0 {
+            let i = any_below(g.len);
+            assert!(v[i] == g.data[g.off + i]);
+        }
+        if g.r == 1 {
+            assert!(v.as_ptr() == g.base as *const u8 && v.capacity() == V);
+        } else {
+            // the consumed handle gave its reference back; the others keep reading the same bytes
+            assert!(cnt(&g) == g.r - 1);
+            outside_unchanged(&g, V, V);
+            finish_arc(&g, 1);
+            release_shared(g.sh);
+        }
+        end_reached!();
+    }
+}
+
+// @h props=C02,C03 tier=quick flags=leak group=step note=Drop_for_BytesMut_both_forms
+#[kani::proof]
+#[kani::unwind(10)]
+pub fn drop_step() {
+    unsafe {
+        let arc: bool = kani::any();
+        if arc {
+            let (m, g) = st_arc(false);
+            drop(m);
+            if g.r != 1 {
+                assert!(cnt(&g) == g.r - 1);
+                outside_unchanged(&g, V, V);
+                finish_arc(&g, 1);
+                release_shared(g.sh);
+            }
+        } else {
+            let (m, g) = st_vec();
+            drop(m);
+        }
+        end_reached!();
+    }
+}
+
+// ================================================================================== C18: one recycling round from the class R(C)
+counting! {
+    // @h props=C18,C08 tier=quick flags=leak group=step note=recycling_round_on_a_sole_owner_never_allocates_when_the_buffer_is_large_enough
+    pub fn recycle_round_no_alloc() {
+        unsafe {
+            // R(V): one BytesMut, sole owner of its allocation, EMPTY (everything consumed and the parts dropped)
+            let shared_form: bool = kani::any();
+            let (mut m, g) = if shared_form { st_arc(true) } else { st_vec() };
+            kani::assume(g.len == 0);
+            let n = any_upto(V);
+            let ev0 = alloc_events();
+            m.reserve(n);
+            assert!(alloc_events() == ev0);
+            assert!(m.capacity() >= n);
+            m.set_len(n);
+            // consume by a symbolic choice and drop the consumed part before the next refill
+            let how: u8 = kani::any();
+            kani::assume(how < 3);
+            let byte_allocs0 = N_ALLOC_BYTEBUF;
+            match how {
+                0 => {
+                    let k = any_upto(n);
+                    let part = m.split_to(k);
+                    drop(part);
+                    m.clear();
+                }
+                1 => {
+                    let part = m.split().freeze();
+                    drop(part);
+                }
+                _ => {
+                    let k = any_upto(n);
+                    m.advance(k);
+                    m.truncate(0);
+                }
+            }
+            // no byte buffer was allocated in the round, the handle is again empty, alone on the SAME allocation
+            assert!(N_ALLOC_BYTEBUF == byte_allocs0);
+            assert!(m.len() == 0);
+            let again = m.try_reclaim(V);
+            assert!(again && m.capacity() >= V);
+            assert!(m.ptr.as_ptr() == g.base);
+            if m.kind() == KIND_ARC {
+                assert!((*m.data).ref_count.load(Ordering::Relaxed) == 1);
+            }
+            kani::cover!(shared_form && how == 1, "shared form, split+freeze");
+            kani::cover!(!shared_form && how == 0, "inline form, split_to (promotes)");
+            end_reached!();
+        }
+    }
+}
+
+// @h props=C04,C01 tier=quick flags=witness group=step
+#[kani::proof]
+#[kani::unwind(10)]
+pub fn witness() {
+    unsafe {
+        let (mut m, g) = st_arc(false);
+        let ok = m.try_reclaim(kani::any());
+        content_is(&m, &g);
+        assert!(false, "VACUITY_WITNESS");
+    }
+}
